@@ -10,7 +10,8 @@ void rf_value(int ptype, int tlen, int ci, int r, int p, uint8_t* out, ref_str* 
     static const uint64_t PD[] = { 0, 0x8000000000000000ull, 0x3ff0000000000000ull, 0x7ff0000000000000ull, 0xfff0000000000000ull, 0x7ff8000000000000ull, 0x7ff4000000000001ull, 0xc05ec00000000000ull };
     static const struct { const char* p; uint32_t n; } SP[] = { { "", 0 }, { "a", 1 }, { (const char*)g_s300, 300 }, { "\x00", 1 }, { "\xff\xfe", 2 }, { "hello", 5 }, { "ab", 2 } };
     if (!g_s300[0]) memset(g_s300, 'L', 300);
-    /* pattern 3: every row distinct (tags); patterns 0..2: small pools so dictionaries have repeats */
+    /* pattern 3: every row distinct (tags); patterns 0..2: small pools so dictionaries have repeats; patterns 10+q: the tags of pattern 3 repeating with a period of q+1 rows */
+    if (p >= 10) { r = r % (p - 9); p = 3; }
     unsigned k = (unsigned)(r * (p == 2 ? 3 : 1) + p * 2 + ci);
     switch (ptype) {
     case PT_BOOLEAN: out[0] = (uint8_t)((p == 1 ? 1 : (r ^ (r >> 1) ^ ci)) & 1); break;
